@@ -11,9 +11,9 @@ and are tied to the code by harness/props/C19.py (families `sc.*`, `wn.*`).
 Every theorem is for ALL inputs (no bound on block counts, chunk sizes, windows).
 
 Not proved here (left to correspondence + search, see level_note): the `min_count` / NaN
-masking applied on top of the moving-window combination, `overlapTrim_id` and the boundary
-index maps (modelled and driven: `wn.boundary`, `wn.trim_chunks`, `wn.internal_chunks`,
-`wn.rechunked`).
+masking applied on top of the moving-window combination, and the VALUE-level `overlapTrim_id`
+(ArrayOverlapLayer is upstream dask, trusted; only its chunk arithmetic round trip and the
+boundary index maps are proved).
 -/
 import DaskArrayModel.Lemmas.Scan
 import DaskArrayModel.Lemmas.Window
@@ -165,6 +165,31 @@ theorem ensureMinimumChunksize_spec (size : Int) (chunks : List Int) (hne : chun
     | none => isum chunks < size :=
   Dask.Lemmas.Window.ensureMinimumChunksize_spec size chunks hne hpos
 
+/-- The boundary kinds of `overlap` / `map_overlap` are the NumPy pad index maps, for every
+axis length `n > 0`, every depth `0 ≤ depth ≤ n` and every padded position: `periodic` = `wrap`,
+`reflect` = `symmetric`, `nearest` = `edge`, a constant fills exactly the positions outside the
+array; every non-constant source lies inside the array. -/
+theorem boundaryKinds_numpy_pad (n depth p : Int) (hn : 0 < n) (_hd0 : 0 ≤ depth) (hdn : depth ≤ n)
+    (hp0 : 0 ≤ p) (hp : p < n + 2 * depth) :
+    boundarySrc .periodic n depth p = some (padWrap n (p - depth)) ∧
+    boundarySrc .reflect n depth p = some (padSymmetric n (p - depth)) ∧
+    boundarySrc .nearest n depth p = some (padEdge n (p - depth)) ∧
+    boundarySrc .constant n depth p = (if 0 ≤ p - depth ∧ p - depth < n then some (p - depth) else none) ∧
+    (0 ≤ padWrap n (p - depth) ∧ padWrap n (p - depth) < n) ∧
+    (0 ≤ padSymmetric n (p - depth) ∧ padSymmetric n (p - depth) < n) ∧
+    (0 ≤ padEdge n (p - depth) ∧ padEdge n (p - depth) < n) := by
+  have r := Dask.Lemmas.Window.pad_ranges n (p - depth) hn (by omega) (by omega)
+  exact ⟨Dask.Lemmas.Window.boundarySrc_periodic n depth p, Dask.Lemmas.Window.boundarySrc_reflect n depth p,
+    Dask.Lemmas.Window.boundarySrc_nearest n depth p hn, Dask.Lemmas.Window.boundarySrc_constant n depth p,
+    r.1, r.2.1, r.2.2⟩
+
+/-- Chunk arithmetic of overlap then trim (boundary "none"): `trim_internal`'s chunks of
+`_overlap_internal_chunks(chunks, (left, right))` are the original chunks, for every chunk list
+and all depths. -/
+theorem overlapTrim_chunks_id (cks : List Int) (l r : Int) :
+    trimInternalChunks (overlapInternalChunks cks l r) l r true = cks :=
+  Dask.Lemmas.Window.overlapTrim_chunks_id cks l r
+
 /-! ### non-vacuity -/
 
 /-- associativity / identity hypotheses are satisfiable and the models compute something -/
@@ -204,6 +229,10 @@ example : supportsNativeMoving [2, 3, 2] 4 = true ∧
 /-- a window spanning several unit blocks: band + two middle blocks -/
 example : supportsNativeMoving [1, 1, 1, 1, 1] 4 = true ∧
     (movingBlockPlan [1, 1, 1, 1, 1] 4)[4]? = some ⟨4, 1, 0, some 1, some 1, 2, 4, 0⟩ := by decide
+
+example : (List.range 8).map (fun (p : Nat) => boundarySrc .reflect 4 2 p) = [some 1, some 0, some 0, some 1, some 2, some 3, some 3, some 2] := by decide
+example : (List.range 8).map (fun (p : Nat) => boundarySrc .periodic 4 2 p) = [some 2, some 3, some 0, some 1, some 2, some 3, some 0, some 1] := by decide
+example : overlapInternalChunks [3, 4, 5] 1 2 = [5, 7, 6] ∧ trimInternalChunks [5, 7, 6] 1 2 true = [3, 4, 5] := by decide
 
 example : ensureMinimumChunksize 10 [20, 20, 1] = some [20, 11, 10] := by decide
 example : ensureMinimumChunksize 3 [1, 1, 3] = some [5] := by decide
